@@ -180,7 +180,8 @@ def variants_of(unit, mask, tier):
     nz = 5 if N.has_directions(unit, mask) else 1
     no = len(N.group_orders(unit, mask))
     allz = list(range(nz))
-    out = [(("E",), [(z, z % no) for z in allz] if nz >= no else [(0, o) for o in range(no)])]
+    split = [(z, 0) for z in N.split_modes(unit, mask)]       # circle zero on the branch cut (templates with zsplit)
+    out = [(("E",), ([(z, z % no) for z in allz] if nz >= no else [(0, o) for o in range(no)]) + split)]
     for pi, signs in enumerate(itertools.product((1, -1), repeat=len(unit.unk))):
         zs = allz if tier == "thorough" else [pi % nz]
         out.append((("P", signs), [(z, (pi + z) % no) for z in zs]))
@@ -194,7 +195,7 @@ def variants_of(unit, mask, tier):
             if ok:
                 full = (k == len(G))
                 zs = allz if (tier == "thorough" or full) else [oi % nz]
-                out.append((("O", tuple(sorted(om)), rules), [(z, o) for o in range(no) for z in zs]))
+                out.append((("O", tuple(sorted(om)), rules), [(z, o) for o in range(no) for z in zs] + (split if full else [])))
                 oi += 1
             else:
                 skipped += 1
@@ -438,7 +439,9 @@ RULE = ("tier %(tier)s: templates x placements = %(units)s; for every template i
         "point) that the closure model resolves, station circles turned through the 5-value zero menu (rotated over the stations; "
         "quick: all 5 rotations for exact and all-omitted, one rotating for the others), every order of the cluster groups (station clusters, "
         "height-differences, vectors, coordinates) in the input file for the omitted variants (rotating for exact / perturbed), azimuth first / last / "
-        "absent in its station cluster (template azi3d), coordinate frame axes-xy x angles and id order of new vs known points as listed per "
+        "absent in its station cluster (template azi3d), for template orient (a station seeing 4/5 known points) additionally the circle zero on the branch cut: orientation shift exactly "
+        "200 / 0 gon x every sign pattern of +-1e-9 gon on the readings to the known points (exact and all-omitted variants), "
+        "coordinate frame axes-xy x angles and id order of new vs known points as listed per "
         "template (truth, approximate offsets, vectors, observed coordinates and the sense of directions / angles / azimuths generated "
         "consistently per frame), algorithms: quick all 4, thorough envelope + one "
         "rotating; oracle per run: exit 0, no removed point/observation, no outlying term, no failed linearization test, adjusted = true "
